@@ -79,7 +79,7 @@ def rule_dup(prog: Program, modules: Optional[Set[str]] = None) -> List[Instance
                             seen2.add(k)
         out.extend(bad)
         if n_checked:
-            out.append(Instance("R-DUP", f"{mname}#dup-scan", OK if not bad else INFO, f"{n_checked} boolean operators / comparisons / conditional chains scanned for repeated operands", prog.modules[mname].path))
+            out.append(Instance("R-DUP", f"{mname}#dup-scan", OK if not bad else INFO, f"{n_checked} boolean operators / comparisons / conditional chains scanned for repeated operands", prog.modules[mname].relpath))
     return out
 
 
@@ -116,6 +116,63 @@ def _optional_numeric(ann: Optional[ast.AST], prog: Program, mi) -> bool:
     return bool(parts) and all(p in ("int", "float", "Nodata") for p in parts)
 
 
+DIVISOR_CALLS = {"align_up", "align_down"}
+
+
+def _divisor_uses(fi: FuncInfo, name: str) -> List[ast.AST]:
+    out: List[ast.AST] = []
+    for n in walk_own(fi.node):
+        if isinstance(n, ast.BinOp) and isinstance(n.op, (ast.Mod, ast.FloorDiv, ast.Div)) and isinstance(n.right, ast.Name) and n.right.id == name:
+            out.append(n)
+        if isinstance(n, ast.Call) and (n.func.attr if isinstance(n.func, ast.Attribute) else getattr(n.func, "id", "")) in DIVISOR_CALLS and len(n.args) >= 2 and isinstance(n.args[1], ast.Name) and n.args[1].id == name:
+            out.append(n)
+    return out
+
+
+def _used_as_divisor(fi: FuncInfo, name: str) -> bool:
+    return bool(_divisor_uses(fi, name))
+
+
+def rule_zerodiv(prog: Program, modules: Optional[Set[str]] = None) -> List[Instance]:
+    """R-ZERODIV: an optional integer parameter used as a divisor / alignment (x % p, x // p, align_up(x, p))
+    must be excluded from being zero on the way there, not only from being None: numpy integer `% 0` does
+    not raise (it yields 0 with a RuntimeWarning), so align_up(x, 0) silently evaluates to x - 1."""
+    from ..cfg import Conditions
+    from .guards import conds_at
+
+    out: List[Instance] = []
+    for mname in sorted(prog.modules):
+        if modules is not None and mname not in modules:
+            continue
+        mi = prog.modules[mname]
+        for fi in prog.all_functions({mname}):
+            for p in fi.params():
+                if not _optional_numeric(p.annotation, prog, mi):
+                    continue
+                uses = _divisor_uses(fi, p.arg)
+                if not uses:
+                    continue
+                cond = Conditions(fi.body)
+                for u in uses:
+                    cs = conds_at(cond, enclosing_stmt(u))
+                    nonzero = False
+                    for e, pol in cs:
+                        if isinstance(e, ast.Name) and e.id == p.arg and pol:
+                            nonzero = True
+                        if isinstance(e, ast.Compare) and len(e.ops) == 1 and isinstance(e.left, ast.Name) and e.left.id == p.arg:
+                            op, c = e.ops[0], e.comparators[0]
+                            if isinstance(op, ast.Gt) and pol and isinstance(c, ast.Constant) and c.value == 0:
+                                nonzero = True
+                            if isinstance(op, ast.NotEq) and pol and isinstance(c, ast.Constant) and c.value == 0:
+                                nonzero = True
+                            if isinstance(op, ast.In) and not pol and isinstance(c, (ast.Tuple, ast.List, ast.Set)) and any(isinstance(x, ast.Constant) and x.value == 0 and x.value is not False for x in c.elts):
+                                nonzero = True
+                    out.append(Instance("R-ZERODIV", f"{fi.qual}#{p.arg}:{short(u, 30)}", OK if nonzero else BAD,
+                                        f"`{short(u, 40)}` is reached only with {p.arg} non-zero" if nonzero else
+                                        f"`{short(u, 40)}` divides/aligns by the optional parameter `{p.arg}`, which is only known not to be None there: {p.arg}=0 does not raise with numpy integers (x % 0 == 0), the result is silently off by one", fi.where(u)))
+    return out
+
+
 def rule_truthy(prog: Program, modules: Optional[Set[str]] = None) -> List[Instance]:
     out: List[Instance] = []
     for mname in sorted(prog.modules):
@@ -150,12 +207,14 @@ def rule_truthy(prog: Program, modules: Optional[Set[str]] = None) -> List[Insta
                 elif isinstance(n, (ast.If, ast.While, ast.IfExp)):
                     tested.append(n.test)
                 for t in tested:
+                    if isinstance(t, ast.Name) and t.id in optnum and _used_as_divisor(fi, t.id):
+                        continue  # zero has to be excluded anyway where the value divides / aligns
                     if isinstance(t, ast.Name) and t.id in optnum and still_param(t.id, n):
                         bad.append(Instance("R-TRUTHY", f"{fi.qual}#{t.id}", BAD,
                                             f"`{short(n, 60)}` tests the truth value of `{t.id}`, declared as an optional number: an explicit 0 is treated like None", fi.where(n)))
         out.extend(bad)
         if n_params:
-            out.append(Instance("R-TRUTHY", f"{mname}#truthy-scan", OK if not bad else INFO, f"{n_params} optional-number parameters, none tested by truth value", mi.path))
+            out.append(Instance("R-TRUTHY", f"{mname}#truthy-scan", OK if not bad else INFO, f"{n_params} optional-number parameters, none tested by truth value", mi.relpath))
     return out
 
 
@@ -413,4 +472,45 @@ def rule_isclose(prog: Program, modules: Optional[Set[str]] = None) -> List[Inst
                                 "relative part of math.isclose given explicitly" if ok else
                                 f"`{short(n, 70)}` passes the caller's absolute tolerance as abs_tol but leaves rel_tol at its default 1e-9: for large values the tolerance grows with the magnitude", fi.where(n)))
     out.append(Instance("R-TOL", "isclose-scan", OK, f"{n_seen} math.isclose(abs_tol=...) calls", "", nontrivial=False))
+    return out
+
+
+# ---------------------------------------------------------------------------------------------
+# R-SIGNMAG: a signed resolution used as a magnitude
+# ---------------------------------------------------------------------------------------------
+def rule_signed_magnitude(prog: Program, modules: Optional[Set[str]] = None) -> List[Instance]:
+    """Resolution components are signed (negative y for north-up, negative x for mirrored rasters).
+    `max(...)` / `min(...)` over them picks by sign, not by size: with both components negative the
+    "largest" is negative. A pixel-size *magnitude* (buffer widths, ground sample distance, spans) must
+    take abs() before aggregating."""
+    out: List[Instance] = []
+    for fi in prog.all_functions(modules):
+        for n in walk_own(fi.node):
+            if not (isinstance(n, ast.Call) and isinstance(n.func, ast.Name) and n.func.id in ("max", "min")):
+                continue
+            res_args = []
+            for a in n.args:
+                x = a.value if isinstance(a, ast.Starred) else a
+                chain = x
+                attrs = []
+                while isinstance(chain, (ast.Attribute, ast.Call)):
+                    if isinstance(chain, ast.Call):
+                        if isinstance(chain.func, ast.Attribute):
+                            attrs.append(("call", chain.func.attr, chain))
+                            chain = chain.func.value
+                        else:
+                            break
+                    else:
+                        attrs.append(("attr", chain.attr, chain))
+                        chain = chain.value
+                names = [a_[1] for a_ in attrs]
+                if "resolution" in names:
+                    absd = any(k == "call" and nm == "map" and c.args and short(c.args[0]) == "abs" for k, nm, c in attrs) or (isinstance(x, ast.Call) and call_name(x) == "abs")
+                    res_args.append((x, absd))
+            if not res_args:
+                continue
+            bad = [x for x, absd in res_args if not absd]
+            out.append(Instance("R-SIGNMAG", f"{fi.qual}#res-magnitude:{short(n, 40)}", BAD if bad else OK,
+                                f"`{short(n, 60)}` aggregates signed resolution components: for a raster mirrored in x (both components negative) the result is negative, a width/buffer computed from it has the wrong sign" if bad
+                                else f"`{short(n, 60)}` aggregates resolution magnitudes (abs taken first)", fi.where(n)))
     return out
